@@ -8,15 +8,15 @@ G = {
  'LEX':    [r'lexer\..*'],
  'PARSE':  [r'parser\..*'],
  'MATCH':  [r'matcher\..*'],
- 'FSM':    [r'fsm\.(\(\*State\)\.(apply|Parse|T|has|simplifySelf)|NewState|simplify|removeTransitionAt)'],
+ 'FSM':    [r'fsm\.(\(\*State\)\.(apply|Parse|T|has|simplifySelf)|NewState|simplify|removeTransitionAt|sameArgs)'],
  'FILL':   [r'fsm\.fillContainers'],
- 'VSET':   [r'values\.\(\*.*Value\)\.(Set|Clear|IsBoolFlag)', r'values\.IsBool'],
+ 'VSET':   [r'values\.\(\*.*Value\)\.(Set|Clear|IsBoolFlag)', r'values\.IsBool', r'lemma\.builtinCapabilities'],
  'VENV':   [r'values\.(SetFromEnv|setMultivalued)'],
  'VTEXT':  [r'values\.(DefaultValue|\(\*.*Value\)\.(String|IsDefault))'],
  'FLOW':   [r'flow\..*', r'mow\.cli\.Exit'],
  'DECL':   [r'mow\.cli\.(mkOptStrs|validArgName|\(\*Cmd\)\.(mkOpt|mkArg))',
             r'mow\.cli\.\((Bool|String|Int|Float64|Strings|Ints|Floats64)(Opt|Arg)\)\.value',
-            r'mow\.cli\.\(\*Cmd\)\.(Bool|String|Int|Float64|Strings|Ints|Floats64)(Opt|Arg)?(Ptr)?', r'mow\.cli\.\(\*Cmd\)\.Var(Opt|Arg)', r'mow\.cli\.App',
+            r'mow\.cli\.\(\*Cmd\)\.(Bool|String|Int|Float64|Strings|Ints|Floats64)(Opt|Arg)?(Ptr)?', r'mow\.cli\.\(\*Cmd\)\.Var(Opt|Arg)?', r'mow\.cli\.\(Var(Opt|Arg)\)\.value', r'mow\.cli\.App',
             r'mow\.cli\.\(\*Cli\)\.Version', r'mow\.cli\.\(\*Cmd\)\.Command'],
  'INIT':   [r'mow\.cli\.\(\*Cmd\)\.doInit'],
  'ROUTE':  [r'mow\.cli\.\(\*Cmd\)\.(parse|getOptsAndArgs|helpIndex|isAlias|isFirstItemAmong|onError)', r'mow\.cli\.\(\*Cli\)\.(parse|Run)', r'lemma\.help.*'],
@@ -30,19 +30,19 @@ P = {
  'C04': 'ROUTE INIT DECL HELP FSM FILL',
  'C05': 'FLOW ROUTE INIT',
  'C06': 'VSET VENV VTEXT FILL DECL MATCH FSM',
- 'C07': 'ROUTE INIT HELP FSM FILL VSET MATCH DECL',
+ 'C07': 'ROUTE INIT HELP FSM FILL VSET MATCH DECL PARSE',
  'C08': 'LEX PARSE INIT ROUTE DECL',
  'C09': 'MATCH FSM FILL PARSE ROUTE',
  'C10': 'MATCH FSM PARSE VSET DECL ROUTE',
  'C11': 'MATCH FSM PARSE',
  'C12': 'MATCH FSM PARSE VENV VSET DECL',
- 'C13': 'VSET VENV FILL FSM MATCH DECL',
+ 'C13': 'VSET VENV FILL FSM MATCH DECL PARSE',
  'C14': 'ROUTE HELP INIT DECL',
  'C15': 'FILL FSM MATCH DECL INIT SWEEP',
- 'C16': 'INIT DECL HELP',
+ 'C16': 'INIT DECL HELP ROUTE SWEEP',
  'C17': 'HELP VTEXT DECL INIT',
  'C18': 'DECL LEX INIT HELP',
- 'C19': 'VSET VENV VTEXT FILL FSM MATCH DECL ROUTE',
+ 'C19': 'VSET VENV VTEXT FILL FSM MATCH DECL ROUTE PARSE',
  'C20': 'SWEEP VSET MATCH FSM FILL DECL INIT ROUTE',
 }
 # C03 (termination, no crash): only the safety/termination/subset/precondition obligations, plus the functional clauses
